@@ -111,6 +111,82 @@ func (c *Ctx) parserRole(pkg string) map[*core.Func]bool {
 	return out
 }
 
+// heldLockCtx is heldLock with the caller-held case: a function all of
+// whose call sites are reached with the mutex held ("l.mu must be held")
+// holds it from entry.
+func (c *Ctx) heldLockCtx(f *core.Func) map[ast.Node]bool {
+	key := "heldLockCtx:" + f.Name
+	if v, ok := c.cache[key]; ok {
+		return v.(map[ast.Node]bool)
+	}
+	var out map[ast.Node]bool
+	if c.entryLocked(f, map[*core.Func]bool{}) {
+		out = map[ast.Node]bool{}
+		f.OwnNodes(func(n ast.Node) bool {
+			out[n] = true
+			return true
+		})
+	} else {
+		out = heldLock(c.P, f)
+	}
+	c.cache[key] = out
+	return out
+}
+
+// entryLocked reports whether every call site of f (a declared, non-exported
+// function that is only ever called, never used as a value) holds the mutex.
+func (c *Ctx) entryLocked(f *core.Func, visiting map[*core.Func]bool) bool {
+	if f.Decl == nil || f.Obj == nil || f.Obj.Exported() || visiting[f] {
+		return false
+	}
+	key := "entryLocked:" + f.Name
+	if v, ok := c.cache[key]; ok {
+		return v.(bool)
+	}
+	visiting[f] = true
+	defer delete(visiting, f)
+	ncalls := 0
+	ok := true
+	for _, g := range c.P.Funcs {
+		if g.Pkg != f.Pkg || !ok {
+			continue
+		}
+		info := g.Info()
+		var held map[ast.Node]bool
+		g.OwnNodes(func(n ast.Node) bool {
+			id, isID := n.(*ast.Ident)
+			if !isID || info.Uses[id] != types.Object(f.Obj) {
+				return true
+			}
+			// the use must be the callee of a call expression
+			var fun ast.Node = id
+			if se, isSel := c.P.Parent(id).(*ast.SelectorExpr); isSel && se.Sel == id {
+				fun = se
+			}
+			call, isCall := c.P.Parent(fun).(*ast.CallExpr)
+			if !isCall || call.Fun != fun {
+				ok = false
+				return true
+			}
+			if _, isGo := c.P.Parent(call).(*ast.GoStmt); isGo {
+				ok = false
+				return true
+			}
+			ncalls++
+			if held == nil {
+				held = heldLock(c.P, g)
+			}
+			if !held[call] && !c.entryLocked(g.Root(), visiting) {
+				ok = false
+			}
+			return true
+		})
+	}
+	res := ok && ncalls > 0
+	c.cache[key] = res
+	return res
+}
+
 // heldLock computes, for each node of f, whether a mutex field of the
 // shared structs is held (must analysis; defer Unlock keeps it held).
 func heldLock(p *core.Program, f *core.Func) map[ast.Node]bool {
@@ -141,7 +217,7 @@ type access struct {
 func (c *Ctx) accesses(f *core.Func, fields map[*types.Var]string) []access {
 	info := f.Info()
 	var out []access
-	held := heldLock(c.P, f)
+	held := c.heldLockCtx(f)
 	writes := map[ast.Expr]bool{}
 	f.OwnNodes(func(n ast.Node) bool {
 		switch n := n.(type) {
@@ -498,7 +574,7 @@ func ruleCC4(pkgs ...string) Rule {
 				}
 				for _, f := range c.funcsOfPkg(pkg, false) {
 					info := f.Info()
-					held := heldLock(c.P, f)
+					held := c.heldLockCtx(f)
 					f.OwnNodes(func(n ast.Node) bool {
 						switch n := n.(type) {
 						case *ast.SendStmt:
